@@ -9,8 +9,8 @@ PARTIAL by design (DESIGN.md C19).  Proved here, over `Model/Lint/{Regex,LineRul
     (`typo_witnesses`, `validator_witnesses`), hence `typo_seeded_anywhere`;
   * seeded-edit and undo theorems for the modelled line rules; `exit_is_count`.
 NOT modelled (covered by seeded edits on the implementation in harness/c19.py only): the token-level
-parsers (namespace versus path, forward declarations), include order / first include (C20 models the
-comparison).
+parsers (Parser.NamespacesParser: which namespace names a file has - the rule from the name onwards IS modelled;
+forwardsValidation), include order / first include (C20 models the comparison).
 The snapshot's dead rule "Empty line after #pragma once" is repaired in /repo; the model follows the
 repaired code and `seeded_blank_after_pragma` states the rule as a seeded-edit theorem.
 -/
@@ -18,6 +18,7 @@ import SymbolVerif.Proofs.RegexLemmas
 import SymbolVerif.Proofs.LineRulesLemmas
 import SymbolVerif.Proofs.DepsLemmas
 import SymbolVerif.Proofs.ValidatorsLemmas
+import SymbolVerif.Model.Lint.Namespace
 import SymbolVerif.Generated.LintTables
 namespace SymbolVerif.C19
 open SymbolVerif.Lint.Regex SymbolVerif.Lint.Rules
@@ -450,6 +451,69 @@ theorem seeded_split_call (before after : List Str) (head tail : Str)
   refine Or.inr (Or.inl ?_)
   have := singleLine_two_lines (stateAfter singleLine singleLine.reset 1 before) (1 + before.length) head tail hs ho hc o b h hcount hclosed hbr hw
   simpa [singleLine, Nat.add_comm] using this
+
+/-! ### namespace versus path (from the namespace name onwards; the token-level parser is abstracted) -/
+
+/-- plugins / sdk: the path determines the one namespace that is accepted -/
+theorem plugin_namespace_unique (ns ns' path : Str) (h : nsPlugin ns path = true) (h' : nsPlugin ns' path = true) : ns = ns' := by
+  unfold nsPlugin at h h'
+  have e1 : pluginExpected path = some ns := by simpa using h
+  have e2 : pluginExpected path = some ns' := by simpa using h'
+  rw [e1] at e2
+  exact Option.some.inj e2
+
+/-- extensions: likewise -/
+theorem extension_namespace_unique (ns ns' path : Str) (h : nsExtension ns path = true) (h' : nsExtension ns' path = true) :
+    ns = ns' := by
+  unfold nsExtension at h h'
+  have e1 : extensionExpected path = some ns := by simpa using h
+  have e2 : extensionExpected path = some ns' := by simpa using h'
+  rw [e1] at e2
+  exact Option.some.inj e2
+
+/-- seeded edit, plugin and extension rule sets: a file whose single namespace is accepted and is then renamed to
+    anything that unifies differently is reported as inconsistent with its location -/
+theorem seeded_namespace_rename (rules : RuleSet) (hr : rules = .plugin ∨ rules = .extension) (name name' path : Str)
+    (hok : entryCheck rules false [name] path = .success) (hne : unifyNamespace name' ≠ unifyNamespace name) :
+    entryCheck rules false [name'] path = .invalid := by
+  have hacc : namespaceCheck rules (unifyNamespace name) path = true := by
+    by_cases hc : namespaceCheck rules (unifyNamespace name) path = true
+    · exact hc
+    · simp [entryCheck, hc] at hok
+  have hrej : namespaceCheck rules (unifyNamespace name') path = false := by
+    cases hb : namespaceCheck rules (unifyNamespace name') path with
+    | false => rfl
+    | true =>
+      exfalso
+      rcases hr with rfl | rfl
+      · exact hne (plugin_namespace_unique _ _ path hb hacc)
+      · exact hne (extension_namespace_unique _ _ path hb hacc)
+  simp [entryCheck, hrej]
+
+/-- default rule set (src, tests), outside `tests/.../test`, `int` and `bench` directories and apart from the two
+    special namespaces: a namespace is accepted only if it occurs literally in the (underscore-stripped,
+    colon-joined) path - so renaming it to anything that does not is reported -/
+theorem default_namespace_needs_path (ns path : Str) (h : nsDefault ns path = true)
+    (h1 : ns ≠ lit "catapult:test:") (h2 : ns ≠ lit "catapult:mocks:")
+    (h3 : ((splitPath path).map dropFromLastUnderscore).contains (lit "int") = false)
+    (h4 : ((splitPath path).map dropFromLastUnderscore).contains (lit "bench") = false) :
+    containsSub ns (joinWith ':' ((splitPath path).map dropFromLastUnderscore)) = true := by
+  unfold nsDefault at h
+  simp only [h1, h2, if_false, false_and, h3, h4, Bool.or_self, Bool.false_eq_true] at h
+  split at h
+  · cases h
+  · exact h
+
+/-- `Entry.check()` around the rule: exempt files pass, no namespace / several namespaces are their own verdicts -/
+theorem entry_check_cases (rules : RuleSet) (names : List Str) (path : Str) :
+    entryCheck rules true names path = .success ∧ entryCheck rules false [] path = .empty ∧
+    ∀ a b rest, entryCheck rules false (a :: b :: rest) path = .multiple :=
+  ⟨rfl, rfl, fun _ _ _ => rfl⟩
+
+example : unifyNamespace "catapult::model".toList = "catapult:model:".toList := by decide +kernel
+example : nsDefault "catapult:model:".toList "src/catapult/model/Block.h".toList = true ∧
+    nsDefault "catapult:seededmodel:".toList "src/catapult/model/Block.h".toList = false := by decide +kernel
+example : pluginExpected "plugins/txes/lock_hash/src/model/HashLockInfo.h".toList = some "catapult:model:".toList := by decide +kernel
 
 /-! ### DepsChecker: closure of the rules, and the verdict of `match` -/
 
